@@ -116,11 +116,30 @@ def r_loops(r, prog):
     r.floor(80, 'loops')
 
 
+def _consumers(prog, f, names):
+    """The listed consumer helpers plus every function f calls that itself passes through a consumer on every path to its return (found by
+    fixpoint): extracting part of an arm into a helper that consumes first does not change what the arm does."""
+    names = set(names)
+    for _ in range(4):
+        grew = False
+        for c in f.calls():
+            g = prog.fns.get(c.resolved or '') or prog.fns.get(c.callee or '')
+            if g is None or g.name in names or g is f or not g.blocks:
+                continue
+            through = {x.bb for x in g.calls() if x.name() in names}
+            if through and must_pass(g, 0, g.return_blocks(), through):
+                names.add(g.name)
+                grew = True
+        if not grew:
+            break
+    return names
+
+
 def r_lexer_none_paths(r, prog):
     led = json.load(open(os.path.join(VERIF, 'ledgers', 'loops.json')))
     for e in led['none_returns']:
         f = prog.fn(e['fn'])
-        cons = [c.bb for c in f.calls() if c.name() in e['consumers']]
+        cons = [c.bb for c in f.calls() if c.name() in _consumers(prog, f, e['consumers'])]
         nones = [a for a in aggregates(prog, 'core::option::Option', 'None') if a['fn'] is f and a['lhs']['l'] == 0 and is_bare(a['lhs'])]
         if not nones:
             raise AnchorMissing('None results in %s' % e['fn'])
@@ -137,7 +156,7 @@ def r_every_return_progresses(r, prog):
     led = json.load(open(os.path.join(VERIF, 'ledgers', 'loops.json')))
     for e in led['every_return_progresses']:
         f = prog.fn(e['fn'])
-        through = {c.bb for c in f.calls() if c.name() in e['consumers']} | _field_write_blocks(f, set(e['state_fields']))
+        through = {c.bb for c in f.calls() if c.name() in _consumers(prog, f, e['consumers'])} | _field_write_blocks(f, set(e['state_fields']))
         rets = f.return_blocks()
         # every definition of the return place must be preceded by progress (results computed before consuming are fine
         # as long as the function cannot return without progress)
